@@ -1,5 +1,5 @@
 (* C03 correspondence: cases as printed by harness/c03. *)
-From Verif Require Export Lib.Base Model.C03_ChainTime Model.C03_Controller.
+From Verif Require Export Lib.Base Model.C03_ChainTime Model.C03_Controller Model.C03_Spec.
 Open Scope N_scope.
 
 (* The altairDetails shadowing defect was repaired in the repository ("fix:" commit); the model is
@@ -112,7 +112,11 @@ Definition agree (cs : case) : bool :=
   match c_body cs with
   | BTime p probes slots epochs => agree_time p probes slots epochs
   | BSecs samples => forallb (fun s => (seconds_f64_trunc (fst s) =? snd s)%Z) samples
-  | BHist c init ops snaps al pl reorg _ => agree_hist c init ops snaps al pl reorg
+  | BHist c init ops snaps al pl reorg wf =>
+      agree_hist c init ops snaps al pl reorg &&
+      (* a history the harness declares well-formed lies inside the discipline of the
+         "no slot twice" theorem (Model/C03_Spec.v hist_ok_b), so that the theorem speaks about it *)
+      (if wf then (0 <? ct_spe (c_ct c)) && bounded_b c 0 && hist_ok_b shadowed c 0 (init_of c init) ops else true)
   | BMerge ds (Some out) =>
       list_match (fun m o => mduty_eqb m o && clens_agree m o) (merge_duties ds) out
   | BMerge ds None => false
